@@ -156,9 +156,30 @@ def gen_histories(rng, p, orc, i0):
     return hists
 
 
+def probe_program():
+    """all-pairs shortest path on a 5-cycle with shortcuts (LatExample.v sp_*): the distances from 0 are IMPROVED over several
+    iterations and the improvements must propagate (a raised row has to reach the next iteration's delta)"""
+    V, F = g.V, g.F
+    p = dict(rels=[("edge", 3, "rel"), ("sp", 3, ("lat", "dual")), ("near", 2, "rel")],
+             rules=[dict(heads=[("sp", [V("x"), V("y"), F("dual_of", "w")])], body=[("clause", "edge", [V("x"), V("y"), V("w")], [])]),
+                    dict(heads=[("sp", [V("x"), V("z"), F("dual_add", "l", "w")])], body=[("clause", "edge", [V("x"), V("y"), V("w")], []), ("clause", "sp", [V("y"), V("z"), V("l")], [])]),
+                    dict(heads=[("near", [V("x"), V("y")])], body=[("clause", "sp", [V("x"), V("y"), V("l")], [("if", "dual_le4", ["l"])])])],
+             shape="probe_cycle_shortest")
+    inp = {"edge": [(0, 1, 1), (1, 2, 1), (2, 3, 1), (3, 4, 1), (0, 2, 4), (0, 3, 6), (0, 4, 8), (4, 0, 1)], "sp": [(0, 4, 7)]}
+    return p, inp
+
+
+def probes():
+    p, inp = probe_program()
+    hists = [[("set", inp), ("run",), ("run",)],
+             [("set", inp), ("run",), ("push", {"edge": [(2, 0, 1)], "sp": [(7, 7, 0)]}), ("run",), ("push", {"edge": [(7, 0, 2)]}), ("run",)],
+             [("set", inp), ("run",), ("raise", "sp", (0, 2), 1), ("run",), ("raise", "sp", (3, 0), 9), ("run",)]]
+    return [dict(id="c13lat_probe_cycle", prog=p, hists=hists, kinds=["rerun", "push", "raise"])]
+
+
 def gen_cases(tier, seed):
     rng = lib.rng_for(seed, "C13", "lat")
-    n = 18 if tier == "quick" else 220
+    n = 30 if tier == "quick" else 160
     cases = []
     for i in range(n):
         p = g.gen_program(rng, ["max", "dual"] if i % 4 == 0 else None)
@@ -308,7 +329,7 @@ def run_cases(cases, tag="c13lat", par_every=3, coq_timeout=90):
     jobs, pjobs = [], []
     for n, c in enumerate(cases):
         jobs.append(dict(id=c["id"], text=texts[c["id"]], macro="ascent", rels=c["prog"]["rels"], scripts=[impl_script(c["prog"], h, False) for h in c["hists"]]))
-        if par_every and (n % par_every == 0 or c["id"].startswith("c13lat_corpus")):
+        if par_every and (n % par_every == 0 or c["id"].startswith("c13lat_corpus") or c["id"].startswith("c13lat_probe")):
             pjobs.append(dict(id=c["id"] + "_par", text=texts[c["id"]], macro="ascent_par", rels=c["prog"]["rels"], threads=3,
                               scripts=[impl_script(c["prog"], h, True) for h in c["hists"]]))
     impl = prog.build_and_run(tag, jobs)
@@ -427,7 +448,7 @@ def compare(r):
 
 def tie_part(tier, seed):
     """the lattice half of the C13 tie: dict(mismatches, evaluations, distinct, distribution, rule, trusted_base, assumptions, extra)"""
-    cases = load_corpus() + gen_cases(tier, seed)
+    cases = load_corpus() + probes() + gen_cases(tier, seed)
     results = []
     for i in range(0, len(cases), 96):
         results += run_cases(cases[i:i + 96])
